@@ -147,45 +147,79 @@ Print Assumptions C07_inf_bound_sound.
          The last step needs that the version current at the exit of a block is never one that a
          block with a LARGER index assigns: Model.DegLoops.no_future_version, decidable on the
          validator's maps, part of Model.DegLoops.loops_ok (with single assignment, every
-         assigned local carries a version, update bases are assigned by no statement).
+         assigned local carries a version, an update base read without a running version is
+         assigned by no statement).
          Conclusion: ONE reachable store that holds, at every valuation, every cell of the run's
          final store that the run can still read (the running version of its variable, or a name
          the graph never assigns: [current_at]); hence every claim of a validated graph on an
          expression whose reads are current at the end of the runs is true of
          valuation |-> concrete value.
-         ASSUMED of the family there (as in (3') before its derivation): [picks_decided_sched] -
+         ASSUMED of the family there (as in (3') before its derivation) - and NOT EVALUATED by the
+         check on any case (the evidence counts the GRAPH hypotheses only) - : [picks_decided_sched],
          two runs that enter a block in the same segment with different arriving phi arguments
          enter a join and differ on a deciding condition whose operands are valid for both and
-         are not merged by a phi of that same block.
+         are not merged by a phi of that block that stands BEFORE the phi in question.  (Fourth
+         audit: the first form forbade every phi target of the block and was false for a loop
+         header with two back edges whose parting condition reads the header's own phi target;
+         the proof never needed more than "no EARLIER phi", and that shape now satisfies every
+         hypothesis: C07_header_two_back_edges_example.)
      (3''') C07_varying_decider_phi_no_low_claim - towards loops with a valuation-dependent trip
          count: in a validated graph a phi of a join one of whose deciding conditions varies with
          the valuation in some reachable store (the loop condition of such a loop is one: it ends
          the header, which lies on the dominator chain of the back edge) carries no claim or a
-         claim with upper end NonQuadratic.
+         claim with upper end NonQuadratic.  This is a fact about the lock-step relation; nothing
+         ties a concrete run of such a loop to such a store.
+
+   HOW THE RUN THEOREMS (3) (3') (3'') ARE TO BE READ (fourth audit).
+     - NO PROGRESS THEOREM.  Each of them ASSUMES that every valuation of the family has a
+       completing run (`forall rho, cexec_path .. = Some (s rho)`); none says that a validated,
+       consistent graph gives one.  A run stops (None) when it reads a cell that is not in its
+       store, when a branch condition has no value, or when the path does not follow the branch;
+       that reads of versioned locals name defined cells on every path is C14's statement about
+       version maps (SsaCheck.infos_ok), not yet carried to the stores of Spec.DegRun.  A
+       valuation whose run stops is simply not in any family the theorems speak about.
+     - SUB-FAMILY READING.  The conclusion is about an expression that has a value in the FINAL
+       store of EVERY valuation of the family (`forall rho, cval (s rho) e = Some (val rho)`).  A
+       claim attached to an expression inside a branch is therefore covered only through the
+       families V all of whose valuations take that branch (V and `line` are abstract: any set of
+       valuations closed under the lines considered); the theorems do not say "for the full
+       valuation space" about a node some valuations never reach.
+     - WHAT TIES THE GRAPH HYPOTHESES TO THE REAL TOOL: decidable ones are evaluated per explored
+       graph; `dom_graph_of c = to_dom g /\ Lift.lift body = Ok g` of (3') is established by C13's
+       engine on ITS sample, not per case here; [picks_decided_sched] of (3'') on no case.
+
+   SIGNAL-DEPENDENT TRIP COUNTS: WHAT IS ESTABLISHED FOR THE REAL TOOL (fourth audit).  No
+   representation theorem (no lock-step store represents such a family: a valuation that has left
+   the loop cannot keep its cells while the body fires again for the others).  Established:
+   (i) the validator accepts the real annotated graph, hence (1) for the lock-step relation and
+   (3''') for the phis of the header; (ii) the check's finite-difference ORACLE, which judges such
+   programs per iteration context (the stack of enclosing loops with their iteration numbers): a
+   claim is compared on the runs that reach the node in the same context, and a context reached by
+   fewer than d + 2 of the runs of a line is discarded (evidence degree_oracle,
+   discarded_signal_dependent_paths) - on the five-point lines a claim `<= quadratic` inside such a
+   loop is judged in its first iteration only, `<= linear` in the first two; behind the loop all
+   runs are compared again.  That is: VALIDATOR + ORACLE ONLY; "everything computed from a header
+   phi inherits NonQuadratic" is an argument, not a theorem about runs.
 
    NOT PROVED - OPEN (reported under coverage.open_statements by the check):
      (a) families of concrete runs whose paths DIFFER: PROVED for loop-free graphs (3') and, under
          the assumption [picks_decided_sched], for graphs with loops whose runs stay in step at
-         the headers (3'').  OPEN: deriving that assumption from the graph as (3') does
-         (Proofs.DegRunLoops.C07_loops_picks_decided_full_statement; the parting-block argument of
-         Proofs.DegRunDecided has to be redone per segment, and a deciding condition that reads a
-         phi target of the very block it decides - `x = phi(..)` at a header, `if (x == s)` in
-         the body, both arms jumping back - is read by Spec.DegSem.cond_fixed AFTER an earlier phi
-         of the block has overwritten it: the relation may then be too strict, not the analysis).
+         the headers (3'').  OPEN: deriving that assumption from the graph as (3') does.  Without a
+         side condition it is FALSE, not merely open, for a shape real lifting produces: three
+         variables merged at a header with two back edges, the parting condition reading one that
+         is merged by an EARLIER phi than another (`if (a==x) {x=k; z=1;} else {x=2; z=2;}` as the
+         last statement of a loop body: header phis k.1, x.1, z.1; Spec.DegSem.cond_fixed reads
+         `a == x.1` for the phi of z.1 after x.1 has been overwritten).  The relation has no program
+         counter and could fire the phi of z.1 first; Proofs.DegRunLoops fires the leading phis in
+         block order, and no order helps when the condition reads two merged variables.  The
+         restated open statement Proofs.DegRunLoops.C07_loops_picks_decided_full_statement carries
+         the side condition [deciders_avoid_earlier_phis]; the analysis is not affected (every phi
+         of such a header is judged with a non-constant control: no claim below NonQuadratic).
          Claims on expressions in the MIDDLE of a block whose operands are re-assigned later in
          the same block are covered by (1) for the store, but (3'') relates only the cells that
          are current at the END of the runs to concrete values.
-         For loops with a valuation-dependent trip count no lock-step store represents the
-         family at all (a valuation that has left the loop cannot keep its value while the
-         body fires again for the others); the claims are nevertheless believed true there
-         because the header phis are then judged with a non-constant deciding condition
-         and get upper end NonQuadratic (now PROVED: (3''')), and everything computed from them
-         inherits it.  The full statement is Proofs.DegRunLoops.
-         C07_valuation_dependent_trip_counts_full_statement.  The check's oracle judges such
-         programs per iteration context (the stack of enclosing loops with their iteration
-         numbers): a claim is compared on the runs that reach the node in the same context
-         (evidence key degree_oracle; contexts reached by too few runs are counted as
-         discarded_signal_dependent_paths).
+         Loops with a valuation-dependent trip count: see the paragraph above; the full statement
+         is Proofs.DegRunLoops.C07_valuation_dependent_trip_counts_full_statement.
      (b) that [decides] names EVERY block whose decision can change the incoming edge is
          PROVED for an IR graph that has, block by block, the predecessor and successor lists
          of a lifted skeleton (C07_lifted_split_is_named_by_decides, from
@@ -927,7 +961,8 @@ Proof. vm_compute. repeat split; reflexivity. Qed.
    takes a back edge); all valuations have the same number of segments and their segments start
    with the same blocks [heads]; finitely many classes [reps].  For a graph that passes C14's
    validator (infos_ok), is consistent and passes the decidable Model.DegLoops.loops_ok (single
-   assignment; assigned locals carry versions; update bases are never assigned; the version
+   assignment; assigned locals carry versions; an update base read without a running version is
+   never assigned; the version
    current at the exit of a block is not assigned by a later block), and under the assumption
    [picks_decided_sched] about the phi choices (cf. C07_diverging_runs_represented), ONE store
    reachable by the lock-step relation holds, at every valuation, every cell of the final store of
@@ -1026,3 +1061,45 @@ Example C07_loops_example :
   concat (DegRunLoopsExample.lx_sg true) <> concat (DegRunLoopsExample.lx_sg false) /\
   (forall rho, match DegRunLoopsExample.lx_s rho (DegRunLoopsExample.lx_i 1) with Some f => f [] | None => 0 end = 2).
 Proof. exact DegRunLoopsExample.loops_example. Qed.
+
+(* Model.DegLoops.update_bases_fresh restricts only an update base that is read WITHOUT a running
+   version: on  var u[2]; u[0] = a; u[1] = 1;  (u.1 = update(u.0, ..); u.2 = update(u.1, ..)) the base
+   u.1 of the second update is assigned by the first, and loops_ok holds *)
+Example C07_twice_updated_array_example :
+  compute_infos (c_params DegRunLoopsExample.lu_g) [None] (c_blocks DegRunLoopsExample.lu_g) [] = Some DegRunLoopsExample.lu_infos /\
+  infos_ok DegRunLoopsExample.lu_infos DegRunLoopsExample.lu_g = true /\
+  existsb (vname_eqb (DegRunLoopsExample.lu_u 1)) (local_targets_m DegRunLoopsExample.lu_g) = true /\
+  DegLoops.update_bases_fresh DegRunLoopsExample.lu_infos DegRunLoopsExample.lu_g = true /\
+  DegLoops.loops_ok DegRunLoopsExample.lu_infos DegRunLoopsExample.lu_g = true.
+Proof. exact DegRunLoopsExample.twice_updated_example. Qed.
+
+(* FOURTH AUDIT: the shape "loop header with two back edges whose deciding condition reads the
+   header's own phi target" -  var k = 0; var x = 0; while (k < 3) { k = k + 1; if (a == x) { x = k; }
+   else { x = 2; } }  o <-- x;  as the implementation lifts and renames it (header = block 1 with the
+   predecessors 0, 3, 4 and the phis k.1, x.1; declaration statements left out) - satisfies EVERY
+   hypothesis of C07_loops_runs_represented, [picks_decided_sched] included, for two valuations whose
+   runs part in the first iteration and arrive at the header with different arguments for x.1 *)
+Example C07_header_two_back_edges_example :
+  compute_infos (c_params DegRunLoopsExample.hx_g) DegRunLoopsExample.hx_idom (c_blocks DegRunLoopsExample.hx_g) [] = Some DegRunLoopsExample.hx_infos /\
+  infos_ok DegRunLoopsExample.hx_infos DegRunLoopsExample.hx_g = true /\ graph_consistent DegRunLoopsExample.hx_g = true /\
+  idom_is_dominator_table DegRunLoopsExample.hx_g DegRunLoopsExample.hx_idom = true /\
+  DegLoops.loops_ok DegRunLoopsExample.hx_infos DegRunLoopsExample.hx_g = true /\
+  (forall rho, map (hd 0%nat) (DegRunLoopsExample.hx_sg rho) = DegRunLoopsExample.hx_heads /\
+               Forall (fun seg => seg <> []) (DegRunLoopsExample.hx_sg rho)) /\
+  (forall rho, Forall (StronglySorted lt) (DegRunLoopsExample.hx_sg rho)) /\
+  (forall rho, exists r, In r [true; false] /\ DegRunLoopsExample.hx_sg r = DegRunLoopsExample.hx_sg rho) /\
+  (forall rho, exists tl, concat (DegRunLoopsExample.hx_sg rho) = 0%nat :: tl) /\
+  (forall rho, rel_store bool rho (DegRunLoopsExample.hx_s0 rho) DegRunLoopsExample.hx_S0) /\
+  (forall rho, cexec_path 7 DegRunLoopsExample.lx_sem2 DegRunLoopsExample.lx_sem1 DegRunLoopsExample.lx_call DegRunLoopsExample.lx_code
+                 DegRunLoopsExample.hx_g (params_map (c_params DegRunLoopsExample.hx_g)) (DegRunLoopsExample.hx_s0 rho)
+                 (concat (DegRunLoopsExample.hx_sg rho)) = Some (DegRunLoopsExample.hx_s rho)) /\
+  DegRunLoops.picks_decided_sched bool 7 DegRunLoopsExample.lx_sem2 DegRunLoopsExample.lx_sem1 DegRunLoopsExample.lx_call
+     DegRunLoopsExample.lx_code DegRunLoopsExample.hx_g DegRunLoopsExample.hx_idom (params_map (c_params DegRunLoopsExample.hx_g))
+     DegRunLoopsExample.hx_s0 [true; false]
+     (length DegRunLoopsExample.hx_heads * length (c_blocks DegRunLoopsExample.hx_g))
+     (DegRunLoops.blk_s DegRunLoopsExample.hx_g) (DegRunLoops.vis_s bool DegRunLoopsExample.hx_g DegRunLoopsExample.hx_sg) /\
+  (exists b1, nth_error (c_blocks DegRunLoopsExample.hx_g) 1 = Some b1 /\ b_preds b1 = [0%N; 3%N; 4%N] /\
+              decides DegRunLoopsExample.hx_g DegRunLoopsExample.hx_idom b1 DegRunLoopsExample.hx_cond /\
+              In (DegRunLoopsExample.hx_x 1) (expr_reads DegRunLoopsExample.hx_cond) /\
+              In (DegRunLoopsExample.hx_x 1) (local_targets DegRunLoopsExample.hx_g (b_stmts b1))).
+Proof. exact DegRunLoopsExample.header_two_back_edges_example. Qed.
